@@ -146,7 +146,7 @@ class StdCtx(Ctx):
             text = bytes(e[2][0][2][1:-1], 'utf-8').decode('unicode_escape')
             if not text.isascii() or "'" in text or '\\' in text: raise Unrecognised('message text')
             return '.custom [' + ', '.join(f"'{ch}'" for ch in text) + ']', 'nerr'
-        if k == 'lit' and e[1] == 'num' and re.fullmatch(r'\d+\.0', e[2]) and e[2] != '0.0': return f'NumX.ofNat {e[2][:-2]}', 'f64'      # an integer-valued f64 literal
+        if k == 'lit' and e[1] == 'num' and re.fullmatch(r'\d+\.0', e[2]) and e[2] not in ('0.0', '1.0'): return f'NumX.ofNat {e[2][:-2]}', 'f64'      # an integer-valued f64 literal
         if k == 'binop' and e[1] == '%':
             l, lt = self.tx(e[2], env); r, rt = self.tx(e[3], env)
             if lt == 'f64' and rt == 'f64': return f'NumOps.rem {self.paren(l)} {self.paren(r)}', 'f64'
@@ -214,6 +214,16 @@ class StdCtx(Ctx):
         if k == 'call' and e[1] == ('path', ['f64', 'from']) and len(e[2]) == 1 and e[2][0][0] == 'cast' and e[2][0][2] == 'u8' and e[2][0][1][0] == 'mcall' and e[2][0][1][2] == 'weekday':
             x, xt = self.tx(e[2][0], env)
             if xt == 'u32': return f'NumX.ofNat {self.paren(x)}', 'f64'
+        if k == 'call' and e[1] == ('path', ['Months', 'new']) and len(e[2]) == 1:
+            x, xt = self.tx(e[2][0], env)
+            if xt == 'u32': return x, 'months'
+        if k == 'call' and e[1] == ('path', ['Value', 'from']) and len(e[2]) == 1:
+            x, xt = self.tx(e[2][0], env)
+            if xt == 'dt': return f'(from_datetime {self.paren(x)} : Value N)', 'value'
+        if k == 'lit' and e[1] == 'num' and e[2] == '1.0': return '(NumOps.ofBool true : N)', 'f64'          # 1.0 = f64::from(true)
+        if k == 'binop' and e[1] in ('>', '<') and e[3] == ('lit', 'num', '0.0'):
+            x, xt = self.tx(e[2], env)
+            if xt == 'f64': return f'NumX.{ {">": "gt0", "<": "lt0"}[e[1]] } {self.paren(x)}', 'bool'
         if k == 'call' and e[1] == ('path', ['NaiveDate', 'from_ymd_opt']) and len(e[2]) == 3:
             ts = [self.tx(a, env) for a in e[2]]
             if [t for _, t in ts] == ['i32', 'u32', 'u32']:
@@ -328,6 +338,15 @@ class StdCtx(Ctx):
                 return {'year': (f'{self.paren(d)}.year', 'i32'), 'month': (f'{self.paren(d)}.month', 'u32'), 'day': (f'{self.paren(d)}.day', 'u32'), 'hour': (f'{self.paren(d)}.hour', 'u32'),
                         'minute': (f'{self.paren(d)}.minute', 'u32'), 'second': (f'{self.paren(d)}.second', 'u32'), 'weekday': (f'weekday {self.paren(d)}.days', 'weekday'),
                         'nanosecond': (f'({self.paren(d)}.milli * 1000000)', 'u32')}[name]          # the model keeps whole milliseconds (the conversion rounds to them)
+        # `Months::new(n)` is the count n; `dt.checked_add_months(k)` / `checked_sub_months(k)`: whole months with the day clamped to the target month, None outside
+        # chrono's year range = the model's addMonths (C16 proves its calendar laws)
+        if name in ('checked_add_months', 'checked_sub_months') and len(args) == 1:
+            d, dt = self.tx(recv, env); k, kt = self.tx(args[0], env)
+            if dt == 'dt' and kt == 'months':
+                return f'addMonths {self.paren(d)} ({"-" if name == "checked_sub_months" else ""}(({k} : Nat) : Int))', ('opt', 'dt')
+        if name == 'unsigned_abs' and not args:
+            x, xt = self.tx(recv, env)
+            if xt == 'i32': return f'Int.natAbs {self.paren(x)}', 'u32'
         # `NaiveDate::from_ymd_opt(y, m, d)`: the day number of a valid proleptic-Gregorian date within chrono's year range, else None (a NaiveDate is its day number)
         # `.map(|date| date.and_time(NaiveTime::default()))`: midnight of that day; `.map(Value::from)`: the conversion above
         if name == 'and_time' and args == [('call', ('path', ['NaiveTime', 'default']), [])]:
@@ -557,7 +576,7 @@ def gen_time(srcdir):
     tm = strip_tests(open(os.path.join(srcdir, 'stdlib', 'time.rs')).read())
     if not re.search(r'const\s+MILLISECONDS_PER_DAY\s*:\s*f64\s*=\s*24\.\s*\*\s*60\.\s*\*\s*60\.\s*\*\s*1000\.\s*;', tm): raise Unrecognised('MILLISECONDS_PER_DAY')
     RUST_TYPE.update({'&[Value]': 'values', '&Value': 'value', 'NaiveDateTime': 'dt', 'Result <Self , Self::Error>': ('res', 'dt'), 'Self': 'value'})
-    LEAN_TYPE.update({'dt': 'DT', 'nerr': 'NativeError', 'i64': 'Int', 'i32': 'Int', 'u32': 'Nat', 'date': 'Int'})
+    LEAN_TYPE.update({'dt': 'DT', 'nerr': 'NativeError', 'i64': 'Int', 'i32': 'Int', 'u32': 'Nat', 'date': 'Int', 'months': 'Nat'})
     RUST_TYPE.update({'f64': 'f64', 'Result <f64 , NativeError>': ('res', 'f64'), "&'a [Value]": 'values', "&'a str": 'str', "Result <&'a str , NativeError>": ('res', 'str')})
     c = StdCtx(RERR, 'NativeError', selfty=None, module_fns={'default_number': ('SrcStdlib.default_number', ['values', 'usize', 'f64'], ('res', 'f64'))})
     out = []
@@ -566,7 +585,7 @@ def gen_time(srcdir):
     f = find_fn(tm, 'from', after='impl From < NaiveDateTime > for Value'); f['ret'] = 'Self'
     d, aux = c.pure_fn(f, 'from_datetime')
     out += aux + ['/-- `impl From<NaiveDateTime> for Value` (src/stdlib/time.rs) -/\n' + d + '\n']
-    for rust in ('year', 'month', 'day', 'hour', 'minute', 'second', 'millisecond', 'day_of_week', 'is_leap_year', 'encode_date', 'encode_time'):
+    for rust in ('year', 'month', 'day', 'hour', 'minute', 'second', 'millisecond', 'day_of_week', 'is_leap_year', 'encode_date', 'encode_time', 'inc_month'):
         d, aux = c.pure_fn(find_fn(tm, rust), rust)
         out += aux + [f'/-- `{rust}` (src/stdlib/time.rs) -/\n' + d + '\n']
     head = ('/-\n  SlacModel.Generated.SrcTime — GENERATED on every check run by /verif/tools/rs2lean_stdlib.py from the CURRENT text of /repo/src/stdlib/time.rs\n'
